@@ -709,6 +709,7 @@ func allold[T any](f func(p *T) bool) bool { return true }
 func allstrings(f func(s string) bool) bool { return true }
 func iterpos(s string) int { return 0 }
 func floatfinite(f float64) bool { return true }
+func ghostctr[T any](kind string, p *T) int { return 0 }
 func lockacq[T any](p *T) int  { return 0 }
 func lockwacq[T any](p *T) int { return 0 }
 func lockheld[T any](p *T) int { return 0 }
@@ -877,9 +878,10 @@ func exists(lo, hi int, f func(i int) bool) bool {
 	text := body.String()
 	var hdr strings.Builder
 	fmt.Fprintf(&hdr, "package %s\n\nimport verifbig \"math/big\"\n", pc.Name)
+	noStrings := regexp.MustCompile("\"(?:[^\"\\\\]|\\\\.)*\"").ReplaceAllString(text, "\"\"")
 	for _, name := range sortedKeys(fileImports) {
 		re := regexp.MustCompile(`\b` + regexp.QuoteMeta(name) + `\.`)
-		if re.MatchString(text) {
+		if re.MatchString(noStrings) {
 			fmt.Fprintf(&hdr, "import %s %s\n", name, fileImports[name])
 		}
 	}
